@@ -96,7 +96,7 @@ def run(ctx):
     ctx.cov['rule'] = ('all 2^16 states x 2^8 bytes enumerated (distinct by construction, every one non-trivial: a table '
                        'lookup is exercised); two-byte inputs: %s; random buffers (len 0..4096, misalignment 0..7, initial '
                        'state 0 or random) compared whole / every 2-split (len<=40) / random k-split incl. empty pieces; '
-                       'state-echo buffers (all 2^16 states x prefix 0..7 x data making state^data one of 7 special words x 00/FF fill); long buffers up to 2^%d bytes in one call%s; distinct_nontrivial counts only the enumerated (state,input) pairs'
+                       'empty pieces as (NULL,0) and (pointer,0) from every state and inside random splits; state-echo buffers (all 2^16 states x prefix 0..7 x data making state^data one of 7 special words x 00/FF fill); long buffers up to 2^%d bytes in one call%s; distinct_nontrivial counts only the enumerated (state,input) pairs'
                        % ('all 2^32 (state, 2 bytes)' if ctx.tier == 'thorough' else 'states 0..255 x 2^16',
                           22 if ctx.tier == 'quick' else 26, ' and two of 2^32(+17) bytes' if ctx.tier == 'thorough' else ''))
     ctx.cov['state_byte_pairs'] = tot['pairs']
